@@ -61,7 +61,8 @@ def k_conv_specs():
     S.append(K('conv::k_setbit_fr_value', 'Fr::set_bit(i,v) sets bit i of the canonical value (reducing mod r)', ['Fr::set_bit'], 'all canonical x, bit index 0..=300, both values', [MODEL]))
     S.append(K('conv::k_cmp_eq_fq2', 'Fq2 == is component-wise limb equality; is_zero; real/imaginary accessors', ['Fq2 PartialEq'], 'all pairs'))
     S.append(K('conv::k_conv_fq2_from_slice_len', 'Fq2::from_slice rejects (no panic) every length 0..=70 but 64', ['Fq2::from_slice'], 'lengths 0..=70 symbolic', [MODEL]))
-    S.append(K('conv::k_conv_fq2_from_slice', 'Fq2::from_slice: Some exactly for 64 bytes with both coordinates below q (never a panic); imaginary part first; to_slice round trip; parity of the real part',
+    S.append(K('conv::k_fq2_bytes', 'Fq2::to_slice: imaginary part first, canonical values big-endian; is_even = parity of the canonical real part', ['Fq2::to_slice', 'Fq2::is_even'], 'all canonical pairs', ['layout-only model: decode is the identity on canonical values']))
+    S.append(K('conv::k_conv_fq2_from_slice', 'Fq2::from_slice: Some exactly for 64 bytes with both coordinates below q (never a panic)',
                ['sm9_core::Fq2::from_slice', 'fields::Fq2::from_slice/to_slice'], 'all 64-byte strings', [MODEL]))
     return S
 
@@ -83,6 +84,35 @@ def k_dec_specs():
 def k_gt_specs():
     return [K('dec::k_gt_bytes', 'Gt::to_slice: 384 bytes = twelve canonical coefficients, highest first', ['Gt::to_slice', 'Fq12/Fq4/Fq2::to_slice'], 'all twelve coefficients below q', ['layout-only model: decode is the identity on canonical values (byte placement cannot depend on which bijection decode is)']),
             K('dec::k_gt_eq', 'Gt == is equality of all twelve canonical coefficients', ['Gt PartialEq'], 'all pairs')]
+
+
+ATRUST = ['z3 (polynomial identities over Z, reduced mod q), own polynomial normal form as cross-check', 'overlay model of the base field = contracts proved by engine L (mul, squared, sum_of_products = sum a_i*b_i, div2)',
+          'F_q is a field (integral domain); generic group code is parametric in its base ring (Rust trait bounds)', 'Python reference (checker/poly.py, algreplay.py) written from the standard']
+
+
+def A(pid, parts, tier):
+    import algchk
+    return algchk.run_parts(pid, parts, SEED, tier == 'thorough').obls
+
+
+def run_c04(tier):
+    return A('C04', ['gabs_law', 'consts'], tier)
+
+
+def run_c15(tier):
+    return A('C15', ['gabs_eq', 'normalize'], tier)
+
+
+def run_c12(tier):
+    return A('C12', ['fq2'], tier) + kani.decide('C12', sel(k_conv_specs(), ['k_cmp_eq_fq2', 'k_conv_fq2_from_slice', 'k_fq2_bytes']), tier, pool=4)
+
+
+def run_c17(tier):
+    return A('C17', ['fq4', 'fq12', 'fq12_inv'], tier)
+
+
+def run_c09(tier):
+    return A('C09', ['gabs_new', 'affine_new', 'consts'], tier) + kani.decide('C09', sel(k_dec_specs(), ['k_dec_']), tier, timeout_s=1500, pool=6)
 
 
 def run_c06(tier):
@@ -114,11 +144,15 @@ def run_c07(tier):
 
 def run_c10(tier):
     S = sel(k_dec_specs(), ['k_enc_'])
-    return kani.decide('C10', S, tier, timeout_s=1500 if tier == 'quick' else 3600, pool=6)
+    return A('C10', ['gabs_toaffine', 'normalize'], tier) + kani.decide('C10', S, tier, timeout_s=1500 if tier == 'quick' else 3600, pool=6)
 
 
 def run_c11(tier):
-    return kani.decide('C11', k_gt_specs(), tier, pool=4)
+    return A('C11', ['fq12_gt', 'fq12_inv'], tier) + kani.decide('C11', k_gt_specs(), tier, pool=4)
+
+
+def run_c16(tier):
+    return A('C16', ['gabs_all', 'normalize', 'consts'], tier)
 
 
 def run_c18(tier):
@@ -127,6 +161,13 @@ def run_c18(tier):
 
 
 PROPS = {
+    'C04': dict(run=run_c04, level='proof', trusted_base=ATRUST, not_covered=['associativity as such (a theorem about the curve once + is the chord-and-tangent law)'], explanation=''),
+    'C15': dict(run=run_c15, level='proof', trusted_base=ATRUST, not_covered=['separating P from -P uses: no point of order two (group orders are odd)'], explanation=''),
+    'C12': dict(run=run_c12, level='proof', trusted_base=ATRUST + KTRUST, not_covered=['lazy-reduction multiplier sum_of_products::<2> (engine L, pending integration)'], explanation=''),
+    'C17': dict(run=run_c17, level='proof', trusted_base=ATRUST, not_covered=['final exponentiation exponent (variant E, pending)', 'line functions (pending)', 'composition of the 65 Miller iterations'], explanation=''),
+    'C09': dict(run=run_c09, level='proof', trusted_base=ATRUST + KTRUST, not_covered=['that r*P = O characterises the order-r subgroup of the twist (cofactor coprime to r): number theory, trusted',
+                'the 256-step subgroup scalar multiplication is followed along its generic path; its correctness is C05 + C04'], explanation=''),
+    'C16': dict(run=run_c16, level='proof', trusted_base=ATRUST, not_covered=['scalar multiplication steps (C05)', 'pairing observers (C03)'], explanation='inductive-step argument: every operation, from ARBITRARY representatives (including non-canonical identities (x, y, 0)), returns a representative of the right group element and every observer depends only on the element'),
     'C07': dict(run=run_c07, level='proof', trusted_base=KTRUST, not_covered=['termination of U256::invert', 'canonicity of mul/square/sum_of_products results (engine L, pending integration)'], explanation=''),
     'C10': dict(run=run_c10, level='proof', trusted_base=KTRUST, not_covered=['independence of the representative for z != 1 (engine A, pending integration)'], explanation=''),
     'C11': dict(run=run_c11, level='proof', trusted_base=KTRUST, not_covered=['Gt algebra (engine A, pending integration)', 'exponent laws needing g^r = 1'], explanation=''),
